@@ -75,6 +75,10 @@ type Conn struct {
 	// the remaining bytes *from the caller's slice as it is at that moment*.
 	StallBytes int
 	stallCh    chan struct{}
+	// SendShut: the backend has shut down its sending side only (half-closed connection): reads
+	// see a clean end of stream once the unread reply bytes are consumed; the backend no longer
+	// reads either, so a stalled Write stays stalled until the handler closes its side.
+	SendShut bool
 
 	// Dead is closed when Hung or Spun is set: whoever waits for the call that was using the
 	// connection learns that it will never return.
@@ -112,8 +116,24 @@ func (c *Conn) Retarget(s *Store) {
 	c.BadRequest = false
 }
 
-// Stalled reports whether a Write is blocked on a full send buffer.
-func (c *Conn) Stalled() bool { c.mu.Lock(); defer c.mu.Unlock(); return c.stallCh != nil }
+// Stalled reports whether a Write is blocked on a full send buffer that the backend may still drain.
+func (c *Conn) Stalled() bool {
+	c.mu.Lock()
+	defer c.mu.Unlock()
+	return c.stallCh != nil && !c.SendShut
+}
+
+// HalfClose is the backend shutting down its sending side while leaving its receiving side open
+// and unread.
+func (c *Conn) HalfClose() {
+	c.mu.Lock()
+	c.SendShut = true
+	c.cond.Broadcast()
+	c.mu.Unlock()
+}
+
+// IsSendShut reports whether the backend has half-closed the connection.
+func (c *Conn) IsSendShut() bool { c.mu.Lock(); defer c.mu.Unlock(); return c.SendShut }
 
 // Drain lets a stalled Write continue.
 func (c *Conn) Drain() {
@@ -235,7 +255,7 @@ func (c *Conn) PendingFrames() int {
 func (c *Conn) Deliver() bool {
 	c.mu.Lock()
 	defer c.mu.Unlock()
-	if len(c.pending) == 0 || c.PeerClosed {
+	if len(c.pending) == 0 || c.PeerClosed || c.SendShut {
 		return false
 	}
 	f := c.pending[0]
@@ -299,7 +319,7 @@ func (c *Conn) Read(p []byte) (int, error) {
 			c.mu.Unlock()
 			return n, nil
 		}
-		if c.PeerClosed || c.LocalClosed {
+		if c.PeerClosed || c.LocalClosed || c.SendShut {
 			c.eofReads++
 			if c.eofReads >= SpinLimit {
 				c.Spun = true
@@ -347,6 +367,11 @@ func (c *Conn) Close() error {
 		return nil
 	}
 	c.LocalClosed = true
+	if c.stallCh != nil {
+		// closing a socket fails the write that is blocked on it
+		close(c.stallCh)
+		c.stallCh = nil
+	}
 	if c.S.Locked {
 		c.S.Mu.Lock()
 		c.S.Closed++
